@@ -586,7 +586,9 @@ func runC16_4(c *core.Ctx) {
 	var res types.Object
 	for _, b := range f.Graph().Exits() {
 		if len(b.Return.Results) == 1 {
-			res = flow.ObjOf(f.Info, b.Return.Results[0])
+			if o, ok := flow.ObjOf(f.Info, b.Return.Results[0]).(*types.Var); ok {
+				res = o
+			}
 		}
 	}
 	if res == nil {
@@ -631,7 +633,9 @@ func runC16_4(c *core.Ctx) {
 	}
 	sol := f.Graph().Solve(p)
 	sol.AtExit(func(b *flow.Block, facts uint64) {
-		c.Check(facts&fClamped != 0, f.Name, "result <= EventLoopIndexMax", b.Return.Pos(), "clamped to the capacity of the GFD loop-index field",
+		// returning the bound itself is as good as assigning it first
+		direct := len(b.Return.Results) == 1 && flow.ObjOf(f.Info, b.Return.Results[0]) == types.Object(maxC)
+		c.Check(facts&fClamped != 0 || direct, f.Name, "result <= EventLoopIndexMax", b.Return.Pos(), "clamped to the capacity of the GFD loop-index field",
 			"determineEventLoops can return more than gfd.EventLoopIndexMax loops: loop indexes no longer fit into the connection identifier")
 	})
 	sol.Walk(func(b *flow.Block, i int, n ast.Node, before uint64) {
